@@ -4,7 +4,7 @@
 From Coq Require Extraction.
 From Coq Require Import ExtrOcamlBasic.
 From Utp Require Import Base.Prelude Wire.SeqNr Rtt.Rtte.
-From Utp Require Import Wire.Header.
+From Utp Require Import Wire.Header Mtu.SegSizes.
 From Utp Require Import Rx.Rx Tx.Segments Tx.Ring.
 From Utp Require Import Cubic.F64 Cubic.Cubic Cubic.Libm.
 From Utp Require Import Conn.Recovery Conn.Msg Conn.VSockRec Conn.VSock Conn.VSockRun.
@@ -20,4 +20,6 @@ Extraction "model"
   tx_new tx_trace tx_run c19_ok
   deserialize serialize msg_deserialize sack_new sack_deserialize c11_de_ok c11_msg_ok c11_ser_ok
   vsock_new_cubic vtrace_cubic retransmission_timeout roundtrip_time cubic_window cubic_sshthresh
+  ss_new ss_trace mtu_search c14_ok c14_search_ok segsizes_cfg_ok
+  IPV4_HEADER IPV6_HEADER UDP_HEADER
   cubic_new cubic_trace c15_obs_ok c15_obs_core f64_view BETA_CUBIC C_CUBIC cbrt_cr.
